@@ -1314,8 +1314,16 @@ Example micro_roundtrip_concrete :
   let s := micro_step ex_ghat ex_z 3 true [-1 # 2; -2 # 1] [0; 1] in
   let s' := micro_step ex_ghat ex_z 3 false (fst s) (snd s) in
   map Qred (fst s) = [13 # 82; 38 # 41] /\
-  map Qred (fst s') = [-1 # 2; -2 # 1] /\ map Qred (snd s') = [0; 1].
-Proof. vm_compute. repeat split. Qed.
+  Forall2 Qeq (fst s') [-1 # 2; -2 # 1] /\ Forall2 Qeq (snd s') [0; 1].
+Proof.
+  (* the forward step is computed; the way back follows from the theorem (evaluating it as well
+     costs an independent checker a quarter of an hour of rational arithmetic) *)
+  split; [vm_compute; reflexivity|].
+  destruct ex_micro_hyps as (H1 & H2 & H3 & H4).
+  assert (Hp : qdot [0; 1] [0; 1] == 1) by (vm_compute; reflexivity).
+  exact (micro_step_reversible_dir ex_ghat ex_z 3 2%nat H1 H2 H3 H4 true
+           [-1 # 2; -2 # 1] [0; 1] eq_refl eq_refl Hp).
+Qed.
 
 Print Assumptions esh_update_compose.
 Print Assumptions esh_update_inverse_gen.
